@@ -83,8 +83,16 @@ func c05Run(r *core.Run) {
 	near0 := func(s *big.Int, k int) *big.Int { return nil }
 	near := func(s *big.Int, k int) *big.Int {
 		n := near0(s, k)
-		if n.Cmp(s) == 0 { // a one-byte or palindromic serial is its own mirror image: take a neighbour instead
-			n = new(big.Int).Add(s, big.NewInt(2))
+		// a near miss is a serial that NO certificate of this world carries (a palindromic serial is its own
+		// mirror image; short serials may coincide): otherwise take neighbours until that holds
+		for clash := true; clash; {
+			clash = false
+			for _, x := range []*big.Int{leaf, inter, sTcb, sQE, w.A.Root.X.SerialNumber} {
+				if n.Cmp(x) == 0 {
+					n = new(big.Int).Add(n, big.NewInt(2))
+					clash = true
+				}
+			}
 		}
 		return n
 	}
